@@ -78,6 +78,40 @@ theorem unwrap_effect {h h' : Heap} {x p : Nat} {pre post : List Nat} (hg : Good
     (∀ n, n ≠ p → n ≠ x → h'.kids n = h.kids n) ∧ (∀ c ∈ h.kids x, h'.parent c = some p) :=
   BS.Heap.unwrap_effect hg hp hk hu
 
+/-- **insert_before(y)** (one element): `y` is taken out of wherever it was and lands immediately before `x`; the other
+    children of `x`'s parent keep their order; every other children list only loses `y` -/
+theorem insert_before_one_effect {h h' : Heap} {x y p : Nat} {pre post : List Nat} (hg : Good2 h)
+    (hp : h.parent x = some p) (hy : h.kind y ≠ .soup) (hxy : y ≠ x) (hxs : h.kind x ≠ .soup)
+    (hk : (h.kids p).erase y = pre ++ x :: post) (hr : insertBefore h x [.node y] = .ok h') :
+    Good2 h' ∧ h'.kids p = pre ++ y :: x :: post ∧ (∀ n, n ≠ p → h'.kids n = (h.kids n).erase y) ∧
+    h'.parent y = some p :=
+  BS.Heap.insertBefore_one_effect hg hp hy hxy hxs hk hr
+
+/-- **insert_after(y)** (one element): `y` lands immediately after `x` -/
+theorem insert_after_one_effect {h h' : Heap} {x y p : Nat} {pre post : List Nat} (hg : Good2 h)
+    (hp : h.parent x = some p) (hy : h.kind y ≠ .soup) (hxy : y ≠ x) (hxs : h.kind x ≠ .soup)
+    (hk : (h.kids p).erase y = pre ++ x :: post) (hr : insertAfter h x [.node y] = .ok h') :
+    Good2 h' ∧ h'.kids p = pre ++ x :: y :: post ∧ (∀ n, n ≠ p → h'.kids n = (h.kids n).erase y) ∧
+    h'.parent y = some p :=
+  BS.Heap.insertAfter_one_effect hg hp hy hxy hxs hk hr
+
+/-- **append(y)** (one element): `y` is taken out of wherever it was (the same tag included) and becomes the last child -/
+theorem append_one_effect {h h' : Heap} {p y : Nat} (hg : Good2 h) (hp : (h.kind p).isTag = true)
+    (hy : h.kind y ≠ .soup) (ha : append h p (.node y) = .ok h') :
+    Good2 h' ∧ h'.kids p = (h.kids p).erase y ++ [y] ∧ (∀ n, n ≠ p → h'.kids n = (h.kids n).erase y) ∧
+    h'.parent y = some p :=
+  BS.Heap.append_one_effect hg hp hy ha
+
+/-! non-vacuity: the calls succeed on a concrete tree (`t0` with children `[1,2,3,4]`) and give the stated lists -/
+def wFour : Except Err Heap :=
+  run (Heap.init [.tag, .tag, .tag, .tag, .tag])
+    [.append 0 (.node 1), .append 0 (.node 2), .append 0 (.node 3), .append 0 (.node 4)]
+example : (wFour.bind fun h => (insertBefore h 2 [.node 4]).map (·.kids 0)).toOption = some [1, 4, 2, 3] := by decide
+example : (wFour.bind fun h => (insertAfter h 2 [.node 1]).map (·.kids 0)).toOption = some [2, 1, 3, 4] := by decide
+example : (wFour.bind fun h => (append h 0 (.node 2)).map (·.kids 0)).toOption = some [1, 3, 4, 2] := by decide
+example : (wFour.bind fun h => (unwrap h 0).map (·.kids 0)).toOption = none := by decide   -- no parent: ValueError
+example : (wFour.bind fun h => (clear h 0).map (·.kids 0)).toOption = some [] := by decide
+
 /-! ### witness: the slot arithmetic before the repair breaks contiguity
 
 `a = t0` with children `[b,c,d,e] = [1,2,3,4]`; `a.insert(1, e, b, d)`: documented result `[e,b,d,c]`. -/
